@@ -722,7 +722,8 @@ impl Read for SchedRead {
     fn read(&mut self, buf: &mut [u8]) -> std::io::Result<usize> {
         let call = self.stats.calls.get();
         self.stats.calls.set(call + 1);
-        let fault = || std::io::Error::new(std::io::ErrorKind::Other, "injected fault");
+        let salt = self.pos + call;
+        let fault = || crate::util::injected_fault(salt);
         if self.dead {
             return Err(fault());
         }
